@@ -401,6 +401,8 @@ def scenario_multi(k: Kernel, plan, obs):
 
     files.multiprocessing = MP()
     from sim.prims import install_threading_shims
+    from sim.kernel import patch_threading
+    patch_threading(k)      # a thread the code under test may start becomes a task of the kernel
     install_threading_shims(k, [files])
     log = Log()
     obs["log"] = log
